@@ -517,6 +517,7 @@ class BuildMonitor:
     def __init__(self):
         self.count = 0
         self.where = []
+        self._named = []
 
     def __enter__(self):
         import dask
@@ -536,6 +537,15 @@ class BuildMonitor:
 
             setattr(mod, name, wrapper)
             self._patched.append((mod, name, orig))
+            # dask.base.named_schedulers holds references taken at import time
+            # ("sync", "threads", ...): computations requested with an explicit
+            # scheduler="threads" go through that table
+            import dask.base
+
+            for key, fn in list(dask.base.named_schedulers.items()):
+                if fn is orig:
+                    dask.base.named_schedulers[key] = wrapper
+                    self._named.append((key, orig))
         return self
 
     def _sched(self, dsk, keys, **kw):
@@ -552,5 +562,9 @@ class BuildMonitor:
     def __exit__(self, *exc):
         for mod, name, orig in self._patched:
             setattr(mod, name, orig)
+        import dask.base
+
+        for key, orig in self._named:
+            dask.base.named_schedulers[key] = orig
         self._cfg.__exit__(*exc)
         return False
